@@ -72,11 +72,12 @@ def fs(fr):
 
 
 class StubSite:
-    def __init__(self, sid, names, fu_time, fu_name="FU", start=SIM_START):
+    def __init__(self, sid, names, fu_time, fu_name="FU", start=SIM_START, scr_times=None):
         self._id = sid
         self._latest = start
         self._fu_time = fu_time
         self._fu_name = fu_name
+        self._scr_times = scr_times or {}
         self._survey_frequencies = {n: None for n in names}
         self._deployment_years = {n: [] for n in names}
         self._deployment_months = {n: list(range(1, 13)) for n in names}
@@ -89,7 +90,7 @@ class StubSite:
         return 1
 
     def get_method_survey_time(self, name):
-        return self._fu_time if name == self._fu_name else 10
+        return self._fu_time if name == self._fu_name else self._scr_times.get(name, 10)
 
     def get_survey_cost(self, name):
         return 0
@@ -142,7 +143,9 @@ def _base_props(deployment, is_fu, rd, crews, workday, travel=0):
 
 
 def screening_props(mp, fu_name="FU"):
-    pr = _base_props("stationary" if mp["stationary"] else "mobile", False, mp["rd"], 1, 24)
+    scr = mp.get("scr") or {}
+    pr = _base_props("stationary" if mp["stationary"] else "mobile", False, mp["rd"], 1,
+                     scr.get("workday", 24), scr.get("travel", 0))
     inst = mp.get("inst")
     pr[MP.FOLLOW_UP] = {
         MP.PREFERRED_METHOD: fu_name,
@@ -181,7 +184,9 @@ class World:
         self.idx = {sid: i for i, sid in enumerate(self.sid)}
         names = self.mnames + [self.fu_name]
         fu = hist["fu"]
-        self.sites = [StubSite(self.sid[i], names, fu["times"][i], self.fu_name, self.start) for i in range(n)]
+        scr_times = {nm: (mp.get("scr") or {}).get("time", 10) for nm, mp in zip(self.mnames, hist["methods"])}
+        self.sites = [StubSite(self.sid[i], names, fu["times"][i], self.fu_name, self.start, scr_times)
+                      for i in range(n)]
         end = self.start + timedelta(days=len(hist["days"]) + 5)
         self.props = props if props is not None else [screening_props(mp, self.fu_name) for mp in hist["methods"]]
         sink = io.StringIO()
@@ -209,6 +214,8 @@ class World:
         self.crash = None
         self.releases = []
         self.snaps = []
+        self.screen_log = []                       # every COMPLETED screening survey, from the survey reports
+        self.carried = [dict() for _ in range(k)]  # screening surveys in progress: site -> (planner, rate)
         self._wrap_queue_puts()
         for i, m in enumerate(self.methods):
             self._wrap_method(i, m)
@@ -297,9 +304,40 @@ class World:
         m._filter_candidates_by_proportion = flt
 
     # -- operations --------------------------------------------------------------------------
-    def screen_and_update(self, i, dn, screens):
-        """one day of screening method i: the real deploy_crews on a work plan of the screened
-        sites (files the detection records), then the real update(current_date)"""
+    def screen(self, i, dn, screens):
+        """the screening surveys of method i on day dn: the real deploy_crews on a work plan made of the
+        surveys still in progress from earlier days (first) and today's new ones; a survey that does not
+        fit into the crew's day stays in progress and is continued on the next day (the real crew
+        arithmetic decides).  Returns the surveys COMPLETED today as (site, rate), read from the survey
+        reports (start / completion date, measured rate) — the real code files their detection records."""
+        m = self.methods[i]
+        cur = self.day(dn)
+        self.today = dn
+        self.who = "-"
+        car = self.carried[i]
+        plan = [(s_, pl, r) for s_, (pl, r) in car.items()]
+        for (s_, p, q) in screens:
+            if s_ not in car:
+                plan.append((s_, SurveyPlanner(self.sites[s_]), Fraction(p, q)))
+        m._sensor.rates = {self.sid[s_]: float(r) for (s_, pl, r) in plan}
+        done = []
+        if plan:
+            wp = Workplan([pl for (_, pl, _) in plan], cur)
+            m.deploy_crews(wp, None, None)
+            for (s_, pl, r) in plan:
+                rep = pl.get_current_survey_report()
+                if rep.survey_complete:
+                    car.pop(s_, None)
+                    self.screen_log.append({"method": i, "site": s_, "rate": frac(rep.site_measured_rate),
+                                            "start": self.d2i(rep.survey_start_date),
+                                            "completed": self.d2i(rep.survey_completion_date), "day": dn})
+                    done.append((s_, frac(rep.site_measured_rate), self.d2i(rep.survey_completion_date)))
+                elif rep.survey_in_progress:
+                    car[s_] = (pl, r)
+        return done
+
+    def update(self, i, dn):
+        """the real SiteLevelMethod.update(current_date) of method i"""
         m = self.methods[i]
         cur = self.day(dn)
         self.today = dn
@@ -310,10 +348,6 @@ class World:
         for e in self.fu_schedule._survey_queue.queue:
             self.pre_queue_count[self.idx[e[2].site_id]] = self.pre_queue_count.get(self.idx[e[2].site_id], 0) + 1
         self.pre_pool_sites = {self.idx[p.site_id] for p in m._candidates_for_flags}
-        m._sensor.rates = {self.sid[s]: float(Fraction(p, q)) for (s, p, q) in screens}
-        if screens:
-            wp = Workplan([SurveyPlanner(self.sites[s]) for (s, p, q) in screens], cur)
-            m.deploy_crews(wp, None, None)
         tf = m.update(cur)
         self.who = "-"
         return tf.sites_flagged
@@ -335,17 +369,19 @@ class World:
         wp = self.fu_schedule.get_workplan(cur)
         plans = list(wp.site_survey_planners.values())
         planned = [p.site_id for p in plans]
-        pre = [(self.d2i(p._latest_detection_date), self.d2i(p._site.get_latest_tagging_survey_date()))
-               for p in plans]
+        pre = [(self.d2i(p._latest_detection_date), self.d2i(p._site.get_latest_tagging_survey_date()),
+                [frac(x) for x in p._detected_rates], frac(p.rate_at_site),
+                (getattr(p, "_small_window", None), getattr(p, "_long_window", None))) for p in plans]
         self.fu_method.deploy_crews(wp, None, None)
         reports, _ = wp.get_reports()
         outcomes = []
-        for sid, (latest, tag_before) in zip(planned, pre):
+        for sid, (latest, tag_before, prates, prate, pwin) in zip(planned, pre):
             r = reports[sid]
             o = "c" if r.survey_complete else ("p" if r.survey_in_progress else "u")
             outcomes.append((self.idx[sid], o))
             self.visits.append({"day": dn, "site": self.idx[sid], "outcome": o, "latest": latest,
-                                "tag_before": tag_before, "was_queued": self.pre_queue_count.get(self.idx[sid], 0) > 0,
+                                "tag_before": tag_before, "rates": prates, "rate": prate, "windows": pwin,
+                                "was_queued": self.pre_queue_count.get(self.idx[sid], 0) > 0,
                                 "surveyed_today": r.time_surveyed_current_day})
         self.fu_days.append({"day": dn, "queue_before": queue_before, "planned": [self.idx[x] for x in planned]})
         self.fu_schedule.update(wp, cur, True)
@@ -453,21 +489,31 @@ def iter_history(hist, props=None):
             impl.append("ok " + w.dump())
         for i in range(len(w.methods)):
             screens = [(s, p, q) for (mi, s, p, q) in dd.get("screen", []) if mi == i]
-            for (s, p, q) in screens:
-                lines.append("screen %d %d %s %d" % (i, s, fs(Fraction(p, q)), dn))
-                impl.append("ok")
-            lines.append("update %d %d" % (i, dn))
-            # records released today (known from the history alone) and what the site's plans look like before
-            rd = hist["methods"][i]["rd"]
-            rel = []
-            if dn - rd >= 0:
-                for (mi, s, p, q) in hist["days"][dn - rd].get("screen", []):
-                    if mi == i:
-                        rel.append({"day": dn, "method": i, "site": s, "rate": Fraction(p, q), "dc": dn - rd,
-                                    "tag": w.d2i(w.sites[s]._latest), "pre": w.site_plans(i, s)})
             try:
                 with contextlib.redirect_stdout(sink), contextlib.redirect_stderr(sink):
-                    nf = w.screen_and_update(i, dn, screens)
+                    done = w.screen(i, dn, screens)
+            except (Exception, SystemExit) as e:  # noqa: BLE001
+                w.crash = {"day": dn, "method": i, "type": type(e).__name__, "msg": str(e)[:200]}
+                lines.append("update %d %d" % (i, dn))
+                impl.append("crash:" + type(e).__name__)
+                yield (lines, impl, w)
+                return
+            # the model is told the COMPLETED surveys, dated by the completion date of the survey report
+            for (s, r, cday) in done:
+                lines.append("screen %d %d %s %d" % (i, s, fs(r), cday))
+                impl.append("ok")
+            lines.append("update %d %d" % (i, dn))
+            # records that are due today, from the observed survey log (completion day + reporting delay),
+            # and what the site's plans look like before
+            rd = hist["methods"][i]["rd"]
+            rel = []
+            for sv in w.screen_log:
+                if sv["method"] == i and sv["completed"] == dn - rd:
+                    rel.append({"day": dn, "method": i, "site": sv["site"], "rate": sv["rate"], "dc": dn - rd,
+                                "tag": w.d2i(w.sites[sv["site"]]._latest), "pre": w.site_plans(i, sv["site"])})
+            try:
+                with contextlib.redirect_stdout(sink), contextlib.redirect_stderr(sink):
+                    nf = w.update(i, dn)
             except (Exception, SystemExit) as e:  # noqa: BLE001
                 w.crash = {"day": dn, "method": i, "type": type(e).__name__, "msg": str(e)[:200]}
                 impl.append("crash:" + type(e).__name__)
